@@ -17,6 +17,7 @@ EXTENDS Attrs, Json, IOUtils
 Cfg == JsonDeserialize(IOEnv.VERIF_CFG)
 \* Cfg.keys[pos]: Seq of [key, flag (BOOLEAN), k2 (companion key or ""), k2flag]
 \* Cfg.junk[pos]: Seq of [name, cls]
+\* Cfg.ctx[pos]:  Seq of [key, flag]: ts-only attributes the item carries in BOTH spellings (context)
 Positions == {"struct", "enum", "variant", "field"}
 
 E(key, val) == [key |-> key, val |-> val, cls |-> "known"]
@@ -26,8 +27,8 @@ Val(k, n) == IF k.flag THEN "flag" ELSE n
 
 InsertAt(s, i, x) == SubSeq(s, 1, i - 1) \o <<x>> \o SubSeq(s, i, Len(s))
 
-VARIABLES pos, class, A, B, info
-vars == <<pos, class, A, B, info>>
+VARIABLES pos, class, A, B, info, ctx
+vars == <<pos, class, A, B, info, ctx>>
 
 Pairs(p) ==
   LET ks == Cfg.keys[p] js == Cfg.junk[p] IN
@@ -49,13 +50,23 @@ Pairs(p) ==
             { [class |-> "off", A |-> <<L("serde", base2)>>, B |-> <<>>, info |-> k.key] })
         : n \in DOMAIN ks }
 
+\* the context is a ts list of its own, before or after the lists of the pair; only combinations that
+\* assert_validity accepts (the property is about supported attributes that are valid together)
+Contexts(p) == { <<"none", <<>> >> } \cup
+  UNION { { <<"before", <<L("ts", <<E(c.key, IF c.flag THEN "flag" ELSE "v1")>>)>> >>,
+            <<"after",  <<L("ts", <<E(c.key, IF c.flag THEN "flag" ELSE "v1")>>)>> >> } : c \in SeqToSet(Cfg.ctx[p]) }
+With(cx, ls) == IF cx[1] = "after" THEN ls \o cx[2] ELSE cx[2] \o ls
+
 Init == /\ pos \in Positions
-        /\ \E pr \in Pairs(pos) : class = pr.class /\ A = pr.A /\ B = pr.B /\ info = pr.info
+        /\ \E pr \in Pairs(pos), cx \in Contexts(pos) :
+             /\ class = pr.class /\ A = With(cx, pr.A) /\ B = With(cx, pr.B) /\ info = pr.info
+             /\ ctx = IF cx[1] = "none" THEN "none" ELSE cx[2][1].entries[1].key
+             /\ ~PosInvalid(pos, KeysSet(EffAttrs(pos, A))) /\ ~PosInvalid(pos, KeysSet(EffAttrs(pos, B)))
 Next == UNCHANGED vars
 Spec == Init /\ [][Next]_vars
 
 \* InsertAt beyond the end is skipped
 WellFormed == \A n \in DOMAIN A : A[n].entries # <<>>
 Model_C10 == C10_Same(pos, A, B)
-Emit == PrintT(<<"CASE", ToJson([pos |-> pos, class |-> class, A |-> A, B |-> B, info |-> info, pred_same |-> C10_Same(pos, A, B)])>>)
+Emit == PrintT(<<"CASE", ToJson([pos |-> pos, class |-> class, A |-> A, B |-> B, info |-> info, ctx |-> ctx, pred_same |-> C10_Same(pos, A, B)])>>)
 =============================================================================
